@@ -243,6 +243,10 @@ theorem nextTokenMain_eq_base (env : Env) (hl : env.t.layoutState = none) (pp : 
   · rfl
   · rw [hl]
 
+/-- re-lexing that did not move keeps the layout ahead -/
+theorem mergeLay_same (l : Option Slice) (p : Nat) : mergeLay l p p = l := by
+  simp [mergeLay]
+
 /-- one iteration of the parser loop preserves the round-trip invariant -/
 theorem step_roundtrip (env : Env) (nt : Ctx → Ctx × Outcome Tok) (c c' : Cfg)
     (hnt : NtLay env nt) (hns : NoShiftStop env.t)
@@ -381,7 +385,7 @@ theorem step_roundtrip (env : Env) (nt : Ctx → Ctx × Outcome Tok) (c c' : Cfg
                       have := hinv.lay
                       unfold LayOk at this ⊢
                       simp only
-                      rw [hpos1']
+                      rw [hpos1', mergeLay_same]
                       exact this
                     · have := htok1 tk rfl
                       unfold TokIn at this ⊢
